@@ -461,7 +461,7 @@ pub fn check_case(door: Door, b: &[u8], case: &mut Case) {
                 (Err(e), _) => judge_lax("UdpSlice::from_slice_lax", case, &w, Err(e.cerr()), None),
             }
         }
-        Door::Transport(_) => {}
+        Door::Transport(_) | Door::TcpOpts | Door::NdpOpts => {}
     }
 }
 
